@@ -28,3 +28,17 @@ Print Assumptions C08_reread_requires_shape.
 Theorem C08_read_has_shape : forall ls toks, vsg_read ls = Some toks -> shape toks = true.
 Proof. intros ls toks. apply read_shape. Qed.
 Print Assumptions C08_read_has_shape.
+
+(* the normaliser after phase 1 gives every empty line but the first its blank_line object ... *)
+Theorem C08_normaliser_fills_inner_empty_lines : forall l, no_cr_cr (fix_blank_lines l) = true.
+Proof. exact fix_blank_lines_no_empty_inner_line. Qed.
+Print Assumptions C08_normaliser_fills_inner_empty_lines.
+
+(* ... but it neither handles an empty first line nor removes a blank_line object from a line that is no longer
+   empty: on such lists the normalisers are the identity and the list is not in reader shape (the full statement
+   "normalise restores the shape" is false of the faithful model; these are the witnesses of the known findings) *)
+Theorem C08_normaliser_restores_shape_refuted :
+  (exists l, fix_trailing_whitespace (fix_blank_lines l) = l /\ shape l = false /\ hd_error l = Some CR) /\
+  (exists l, fix_trailing_whitespace (fix_blank_lines l) = l /\ shape l = false /\ no_cr_cr l = true).
+Proof. split; [exact normaliser_first_line_refuted|exact normaliser_stale_blank_refuted]. Qed.
+Print Assumptions C08_normaliser_restores_shape_refuted.
